@@ -16,6 +16,15 @@ def eval_call(self: Exec, n, env):
   # spec-level binders need the un-evaluated lambda
   if isinstance(n.func, ast.Name) and n.func.id in ('forall', 'exists') and not env.has(n.func.id):
     return quantifier(self, n, env)
+  if isinstance(n.func, ast.Name) and n.func.id == 'implies' and not env.has('implies') and len(n.args) == 2:
+    # lazy in the consequent: it may be undefined (e.g. call_args of a call that did not happen)
+    # when the antecedent is false on this path
+    a = self.truthy(self.eval(n.args[0], env))
+    sa = z3.simplify(a)
+    if z3.is_false(sa) or (not self.bound_vars and not z3.is_true(sa) and not self.feasible(a)):
+      return SV(BOOL, z3.BoolVal(True))
+    b = self.truthy(self.eval(n.args[1], env))
+    return SV(BOOL, z3.Implies(a, b))
   if isinstance(n.func, ast.Name) and n.func.id == 'old' and not env.has('old'):
     if self.old_env is None:
       raise OutsideSubset('old() outside a postcondition')
@@ -126,6 +135,8 @@ def call_value(self: Exec, f, args, kwargs, node=None):
       raise OutsideSubset(f'{f.name}: call shape differs from the recorded-effect signature')
     vals = PyTuple(self.coerce(self.escape(a), s) for a, s in zip(args, f.argsorts))
     self.ghost.setdefault('calls:' + f.name, []).append(vals)
+    self.ghost['order:%s:%d' % (f.name, len(self.ghost['calls:' + f.name]) - 1)] = self.ghost.get('effect_counter', 0)
+    self.ghost['effect_counter'] = self.ghost.get('effect_counter', 0) + 1
     self.used_externals.add(f.name)
     return self.fresh(f.ret, 'r_' + f.name) if f.ret is not None else NONEV
   if isinstance(f, Skip):
@@ -403,6 +414,8 @@ def enter_context(self, cm):
       self.monitor_exit(cm.owner, 'exit')
       self.check_transitions(cm.owner, 'exit')
     return NONEV, on_exit
+  if isinstance(cm, SV) and getattr(cm.sort, 'context_hook', None):
+    return cm.sort.context_hook(self, cm)
   if isinstance(cm, Handler):
     return cm.fn(self, [], {})
   if isinstance(cm, tuple) and len(cm) == 2 and callable(cm[1]):
